@@ -17,7 +17,7 @@ ASSUME = ["roots are the longest common literal prefix of a configuration's temp
           "R8 renderer applies the configured one-to-one value mappings and defaults"]
 BUDGET = {"quick": 16000, "thorough": 1200000}
 NSHARDS = 16
-NAMES = ["ophelia", "d'agger", "back\\slash", "x_rig", "x_rig_WORK", "a_b", "model", "char_x", "v001", "WORK", "b", "a-b", "a.b", "sq010_sh0010", "w", "p_v001", "x_", "yorick ", " lead", "two words", ".", "", ".."]
+NAMES = ["ophelia", "d'agger", "back\\slash", "x_rig", "x_rig_WORK", "a_b", "model", "char_x", "v001", "WORK", "b", "a-b", "a.b", "sq010_sh0010", "w", "p_v001", "x_", "yorick ", " lead", "two words", ".", "", "..", "cafe\u0301", "\u212b", "\U00020bb7\u91ce", "Ophelia"]
 
 
 def shard_args(tier, seed):
